@@ -15,8 +15,37 @@ from fractions import Fraction
 import numpy as np
 
 from harness.core import MachineryError, f2b, flist, ilist, parse_ilist, unjson_float
+from harness import c05_r7_fixtures as r7
 
-MODEL_MODULES = ['SkyllhModel.Model.EvSel', 'SkyllhModel.Model.EvSelCrit', 'SkyllhModel.Generated.C05']
+MODEL_MODULES = ['SkyllhModel.Model.EvSel', 'SkyllhModel.Model.EvSelR7', 'SkyllhModel.Model.EvSelCrit', 'SkyllhModel.Generated.C05']
+
+# which Python callables have an executable Lean counterpart that the theorems are about AND that run(ctx) compares with the
+# real callable on every run
+_ES = 'skyllh/core/event_selection.py::'
+_TD = 'skyllh/core/trialdata.py::'
+MODEL_MAP = {
+    _ES + 'AllEventSelectionMethod.select_events': ['EvSel.allMethod', 'EvSel.incTable'],
+    _ES + 'DecBandEventSectionMethod.select_events': ['EvSel.maskMethod', 'EvSel.selectByMask', 'EvSel.restrictMask', 'EvSelCrit.inDecBand'],
+    _ES + 'RABandEventSectionMethod.select_events': ['EvSel.maskMethod', 'EvSelCrit.inRABandCap'],
+    _ES + 'SpatialBoxEventSelectionMethod.select_events': ['EvSel.boxMethod', 'EvSel.batchedMask', 'EvSelCrit.inBoxRaCap',
+                                                           'EvSelCrit.inDecBand'],
+    _ES + 'PsiFuncEventSelectionMethod.select_events': ['EvSel.psiFuncMethod', 'EvSelCrit.psiFunc'],
+    _ES + 'AngErrOfPsiEventSelectionMethod.select_events': ['EvSel.pairMethod', 'EvSel.scatter', 'EvSelCrit.angErrCrit'],
+    _ES + 'IntersectionEventSelectionMethod.select_events': ['EvSel.chain'],
+    _ES + 'EventSelectionMethod.change_shg_mgr': ['EvSel.EsmObj.changeShgMgr'],
+    _ES + 'EventSelectionMethod.create_src_evt_mask': ['EvSel.incMask', 'EvSel.scatter'],
+    _ES + 'IntersectionEventSelectionMethod.change_shg_mgr': ['EvSel.chainChangeChecked'],
+    _TD + 'TrialDataManager.initialize_trial': ['EvSel.initTrialObj', 'EvSel.TdmObj.initialize', 'EvSel.reindex', 'EvSel.scatterInv',
+                                                'EvSel.statedN'],
+    _TD + 'TrialDataManager.index_field_name': ['EvSel.TdmObj.setIndexField'],
+    _TD + 'TrialDataManager.get_n_values': ['EvSel.TdmObj.nValues'],
+    _TD + 'TrialDataManager.n_pure_bkg_events': ['EvSel.TdmObj.nPureBkg'],
+    _TD + 'TrialDataManager.broadcast_sources_array_to_values_array': ['EvSel.bcastSources', 'EvSel.bcastLoop', 'EvSel.TdmObj.readSources'],
+    _TD + 'TrialDataManager.broadcast_sources_arrays_to_values_arrays': ['EvSel.bcastSourcesMany', 'EvSel.TdmObj.readSourcesMany'],
+    _TD + 'TrialDataManager.broadcast_selected_events_arrays_to_values_arrays': ['EvSel.bcastSelected', 'EvSel.bcastSelected1',
+                                                                                'EvSel.TdmObj.readSelected'],
+    _TD + 'TrialDataManager.get_values_mask_for_source_mask': ['EvSel.valuesMask', 'EvSel.TdmObj.readValuesMask'],
+}
 
 PI = math.pi
 TWO_PI = 2 * math.pi
@@ -48,8 +77,34 @@ def generated(ctx):
         except Exception as e:  # noqa
             ctx.note('C05: could not extract the cap of dRA_half in %s (%s); using recorded value 2*pi' % (cls, e))
             ctx.proof['generated_fallbacks'].append('dRA_half cap ' + cls)
+    # defaults of the optional arguments the manager model relies on: initialize_trial(n_events=None, evt_sel_method=None),
+    # TrialDataManager(index_field_name=None)
+    TD_FILE = 'skyllh/core/trialdata.py'
+    dflt = {'n_events': None, 'evt_sel_method': None, 'index_field_name': None}
+    for (fn, arg) in (('initialize_trial', 'n_events'), ('initialize_trial', 'evt_sel_method'), ('__init__', 'index_field_name')):
+        try:
+            dflt[arg] = extract.arg_default(TD_FILE, 'TrialDataManager', fn, arg)
+        except Exception as e:  # noqa
+            ctx.note('C05: could not extract the default of TrialDataManager.%s(%s) (%s); using recorded value None' % (fn, arg, e))
+            ctx.proof['generated_fallbacks'].append('default ' + arg)
+    nd = dflt['n_events']
+    if nd is None:
+        n_events_default = 'none'
+    elif isinstance(nd, int) and not isinstance(nd, bool) and nd >= 0:
+        n_events_default = 'some %d' % nd
+    else:
+        n_events_default = 'some 0'
+        ctx.note('C05: default of initialize_trial(n_events) is %r, neither None nor a natural number; generated as `some 0`' % (nd,))
+    defaults_txt = ('/-- default of `n_events` in TrialDataManager.initialize_trial (`none` = Python None) -/\n'
+                    'def nEventsDefault : Option Nat := %s\n'
+                    '/-- the default of `evt_sel_method` in TrialDataManager.initialize_trial is None -/\n'
+                    'def evtSelDefaultIsNone : Bool := %s\n'
+                    '/-- the default of `index_field_name` in TrialDataManager.__init__ is None -/\n'
+                    'def indexFieldDefaultIsNone : Bool := %s\n'
+                    % (n_events_default, 'true' if dflt['evt_sel_method'] is None else 'false',
+                       'true' if dflt['index_field_name'] is None else 'false'))
     return ('-- generated by harness/props/c05.py from the current skyllh source; do not edit\n'
-            'namespace Gen.C05\n'
+            'namespace Gen.C05\n' + defaults_txt +
             '/-- `batch_size` in SpatialBoxEventSelectionMethod.select_events -/\n'
             'def batchSize : Nat := %d\n'
             '/-- the cap of `dRA_half` in RABandEventSectionMethod.select_events (`np.repeat(<cap>, K)`) -/\n'
@@ -992,7 +1047,13 @@ def esm_requests(case, outs):
     for i, st, held, cur in _esm_walk(case):
         if st['op'] == 'change':
             if st.get('expect_error'):
-                continue            # a rejected change is no operation of the model object (c05_esm_rejected_change)
+                # a rejected change is no operation of the model object (c05_esm_rejected_change,
+                # c05_esm_chain_rejected_change_atomic): the model is told which sub-methods accept the argument
+                ms = cur['methods']
+                acc = [not st.get('invalid') and not (m[0] == 'psifunc' and len(cur[st['mgr']]) != 1) for m in ms]
+                pos[('chk', i)] = len(reqs)
+                reqs.append('echangechk %d %d %d %s' % (acc[0], all(acc[1:]), st['mgr'], sl(cur[st['mgr']] if not st.get('invalid') else [])))
+                continue
             reqs.append('echange %d %s' % (st['mgr'], sl(cur[st['mgr']])))
         elif st['op'] == 'select':
             sc = _esm_select_case(case, st, cur[held], [list(m) for m in cur['methods']])
@@ -1003,6 +1064,11 @@ def esm_requests(case, outs):
 
 def corr_esm(case, outs, answers, pos):
     for i, st in enumerate(case['steps']):
+        if ('chk', i) in pos:
+            raised = outs[i] is not None and 'exc' in outs[i]
+            if (answers[pos[('chk', i)]] == 'raised') != raised:
+                return 'step %d of %d (change_shg_mgr): model %s, implementation %s' % (
+                    i + 1, len(case['steps']), answers[pos[('chk', i)]], 'raised' if raised else 'returned')
         if st['op'] == 'select' and i in pos:
             d = corr_compare({'mode': 'S'}, outs[i], parse_model(answers[pos[i]]))
             if d:
@@ -1043,8 +1109,8 @@ def gen_esm(rng, methods=None):
                 steps += [{'op': 'new_mgr', 'mgr': nmgr, 'srcs': gen_sources(rng, rng.choice([2, 3]))},
                           {'op': 'change', 'mgr': nmgr, 'expect_error': True}]
                 nmgr += 1
-                if cur_m[0][0] != 'psifunc':
-                    break           # a later leaf rejects after earlier leaves were changed: the intersection is half-changed; no verdict
+                # (a later leaf rejecting after earlier leaves were changed left the intersection half-changed before the
+                # round-7 fix: the select below is the verdict)
             else:
                 steps.append({'op': 'change', 'mgr': held, 'invalid': rng.choice(['int', 'str', 'list']), 'expect_error': True})
             steps.append({'op': 'select', 'evs': last_evs})      # the rejected call must have changed nothing
@@ -1107,6 +1173,15 @@ def fixed_esm():
                 {'op': 'mutate', 'mgr': 0, 'srcs': [[4.0, 0.5], [1.0, 0.0]], 'same': True}, {'op': 'change', 'mgr': 0, 'same': True},
                 {'op': 'select', 'evs': ev},
                 {'op': 'new_mgr', 'mgr': 1, 'srcs': [[1.0, 0.0]]}, {'op': 'change', 'mgr': 1},
+                {'op': 'select', 'evs': ev}]})
+    # an intersection whose later sub-method rejects the new manager (PsiFunc, three sources): the call raises and the
+    # intersection must select exactly as before (round 7: two-phase check)
+    for meths in ([['dec', 0.125], ['psifunc']], [['box', 0.125], ['psifunc']], [['angerr', 0.1, 0.0, 0.0], ['dec', 0.125], ['psifunc']]):
+        for nest in ('left', 'right'):
+            cs.append({'mode': 'E', 'methods': meths, 'nest': nest, 'srcs0': [[1.0, 0.0]], 'steps': [
+                {'op': 'select', 'evs': ev},
+                {'op': 'new_mgr', 'mgr': 1, 'srcs': [[4.0, 0.5], [1.0, 0.0], [2.0, -0.25]]},
+                {'op': 'change', 'mgr': 1, 'expect_error': True},
                 {'op': 'select', 'evs': ev}]})
     return cs
 
@@ -1268,7 +1343,24 @@ def fixed_alias():
              'tdm': [{'methods': [['all']], 'index_field': True}, {'methods': [], 'index_field': False}]}]
 
 
+def o_readers(ctx, case):
+    """readers of the stored table (round 7): every value carries the entry of its own source / event"""
+    r = r7.check(case)
+    return None if r is None else r[1]
+
+
+def o_src_evt_mask(ctx, case):
+    """create_src_evt_mask is the indicator matrix of the given pairs"""
+    r = r7.check_mask(case)
+    return None if r is None else r[1]
+
+
 def o_corr_all(ctx, case):
+    if case.get('mode') == 'M':
+        return r7.corr_mask(case, r7.run_mask(case), ctx.driver('C05', [r7.mask_request(case)])[0])
+    if case.get('mode') == 'R':
+        blocks = r7.run_impl(case)
+        return r7.corr(case, blocks, ctx.driver('C05', r7.requests(case, blocks)))
     if case.get('mode') == 'E':
         if _esm_near_tie(case):
             return None
@@ -1278,7 +1370,8 @@ def o_corr_all(ctx, case):
     return o_corr_any(ctx, case)
 
 
-ORACLES = {'select': o_select, 'corr': o_corr_all, 'history': o_history, 'method_object': o_esm, 'aliasing': o_alias}
+ORACLES = {'select': o_select, 'corr': o_corr_all, 'history': o_history, 'method_object': o_esm, 'aliasing': o_alias,
+           'readers': o_readers, 'src_evt_mask': o_src_evt_mask}
 
 
 # ------------------------------------------------------------------------------------------------
@@ -1520,7 +1613,7 @@ BRANCHES = [
     'initTrial:no-selection,no-sort', 'initTrial:no-selection,sort', 'initTrial:selection,no-sort', 'initTrial:selection,sort(reindex)',
     'statedN:not-given', 'statedN:given',
     'changeShgMgr:same-manager', 'changeShgMgr:new-manager', 'changeShgMgr:rejected',
-]
+] + r7.R7_BRANCHES
 # branches of the model that no Float run can reach (tied by the ℝ theorems only / by construction)
 BRANCHES_UNREACHABLE = {
     'dRAhalf:cosfact<0': 'band edges are clipped to [-pi/2, pi/2], cos >= 0 there (C05Crit.cosfact_nonneg)',
@@ -1729,7 +1822,10 @@ def run(ctx):
                         'incoming src_evt_idxs hold non-negative indices; tables with an index outside the shape must be rejected by '
                         'both sides (no property-level verdict); a table handed to AllEventSelectionMethod is sorted, duplicate free, covering',
                         'cases with a non-exact near-tie (0 < margin < 1e-9) of a float comparison are not generated',
-                        'chaining is intersection: every method keeps a (source, event) pair only if it is among the given pairs']
+                        'chaining is intersection: every method keeps a (source, event) pair only if it is among the given pairs',
+                        'readers of the stored table: arrays hold one entry per source (or one entry) / per event held, masks one bit per '
+                        'source; a table handed back by a user-defined selection method that is not grouped by ascending source or holds '
+                        'an index outside the shape is outside their contract (model and code are still compared there, as a diagnostic)']
     cases = list(fixed_cases())
     ctx.count('fixed_cases', len(cases))
     n_sky = ctx.n(1100, 30000)
@@ -1937,6 +2033,9 @@ def run(ctx):
             names = {'dec': 'DecBand', 'ra': 'RABand', 'box': 'SpatialBox', 'all': 'All', 'psifunc': 'PsiFunc', 'angerr': 'AngErrOfPsi'}
             kinds = sorted(set(names[m[0]] for m in e['methods']))
             sig = 'C05/%s%s.change_shg_mgr+select_events/%s' % ('Intersection:' if len(e['methods']) > 1 else '', '+'.join(kinds), r[0])
+            if len(e['methods']) > 1 and r[2] > 0 and e['steps'][r[2] - 1].get('expect_error') and not e['steps'][r[2] - 1].get('invalid'):
+                # a sub-method rejected the manager after an earlier sub-method had taken it (fixed by the two-phase check)
+                sig = 'C05/IntersectionEventSelectionMethod.change_shg_mgr/half-changed-after-rejected-change'
             if sig in esm_seen:
                 ctx.count('violation_repeats')
                 continue
@@ -1985,6 +2084,86 @@ def run(ctx):
                         j += 1
             ctx.violation('aliasing', small, (check_alias(small) or r)[1], kind='history', signature=sig)
     ctx.extra['table_order_differs_diagnostic'] = _DIAG['table_order_differs']
+    # ---- readers of the stored table (round 7): broadcast_* / get_values_mask_for_source_mask after trials on one manager
+    rcases = r7.fixed(rng)
+    for i in range(ctx.n(200, 6000)):
+        rcases.append(r7.gen(rng, directed=('custom' if i % 9 == 0 else 'fresh' if i % 9 == 1 else None)))
+    rblocks = [r7.run_impl(rc, rng=rng) for rc in rcases]          # the reads are generated during this first pass
+    rreqs, rspans = [], []
+    for rc, blocks in zip(rcases, rblocks):
+        rq = r7.requests(rc, blocks)
+        rspans.append((len(rreqs), len(rreqs) + len(rq)))
+        rreqs += rq
+    rans = ctx.driver('C05', rreqs)
+    r_seen = set()
+    n_r_dis = 0
+    for rc, blocks, (a, b) in zip(rcases, rblocks, rspans):
+        ctx.case(key=rc, desc={'readers': [[q['op'] for q in st['reads']] for st in rc['steps']],
+                               'impl': blocks} if ctx.evaluations % 97 == 0 else None)
+        ctx.count('readers:histories')
+        ctx.count('readers:trials=%d%s' % (len(rc['steps']), ',reads-on-fresh-manager' if rc.get('pre') else ''))
+        for st in rc['steps']:
+            ctx.count('readers:table=%s' % ('user-method:' + st.get('custom_class', 'hand-made') if st.get('custom') is not None else
+                                            'no-selection' if not st['trial']['methods'] else 'shipped-method')
+                      + (',index_field' if st['trial'].get('index_field') and st.get('custom') is None else ''))
+            for q in st['reads']:
+                ctx.count('readers:op:' + q['op'])
+                for gk, gv in (q.get('form') or {'forms': 'plain'}).items():
+                    ctx.count('readers:glue:%s=%s' % (gk, gv))
+        r = r7.check(rc, blocks)
+        if r is not None:
+            sig = 'C05/TrialDataManager.readers/%s' % r[0]
+            if sig in r_seen:
+                ctx.count('violation_repeats')
+                continue
+            r_seen.add(sig)
+            small = rc
+            if len(rc['steps']) > 1:                 # shrink: a single trial, a single read
+                for st in rc['steps']:
+                    cand = dict(rc, steps=[st])
+                    cand.pop('pre', None)
+                    rr = r7.check(cand)
+                    if rr is not None and rr[0] == r[0]:
+                        small = cand
+                        break
+            if len(small['steps']) == 1:
+                for q in small['steps'][0]['reads']:
+                    cand = dict(small, steps=[dict(small['steps'][0], reads=[q])])
+                    rr = r7.check(cand)
+                    if rr is not None and rr[0] == r[0]:
+                        small = cand
+                        break
+            ctx.violation('readers', small, (r7.check(small) or r)[1], kind='history', impl_output=r7.run_impl(small), signature=sig)
+            continue
+        d = r7.corr(rc, blocks, rans[a:b], count=ctx.count)
+        if d:
+            n_r_dis += 1
+            if n_r_dis == 1:
+                ctx.violation('corr', rc, 'model and implementation disagree on a reader of the stored table (%s) and the own-source / '
+                              'own-event oracle accepts the implementation' % d, kind='correspondence',
+                              relation='exact equality of the passed-through entries; error on both sides or on none',
+                              impl_output=blocks, signature='C05/corr/TrialDataManager.readers', no_failing_input=True)
+    ctx.extra['readers_disagreements'] = n_r_dis
+    # ---- EventSelectionMethod.create_src_evt_mask called directly
+    mcases = [r7.gen_mask_case(rng) for _ in range(ctx.n(150, 4000))]
+    mouts = [r7.run_mask(mc) for mc in mcases]
+    mans = ctx.driver('C05', [r7.mask_request(mc) for mc in mcases])
+    m_seen = set()
+    for mc, mo, ma in zip(mcases, mouts, mans):
+        ctx.case(key=mc)
+        ctx.count('create_src_evt_mask:form=%s' % mc['form'])
+        r = r7.check_mask(mc, mo)
+        d = r7.corr_mask(mc, mo, ma, count=ctx.count)
+        if r is not None:
+            sig = 'C05/EventSelectionMethod.create_src_evt_mask/%s' % r[0]
+            if sig not in m_seen:
+                m_seen.add(sig)
+                ctx.violation('src_evt_mask', mc, r[1], impl_output=mo, signature=sig)
+        elif d and 'corr' not in m_seen:
+            m_seen.add('corr')
+            ctx.violation('corr', mc, 'model and implementation disagree on create_src_evt_mask (%s) and the indicator-matrix oracle '
+                          'accepts the implementation' % d, kind='correspondence', relation='exact equality of the mask; error on both '
+                          'sides or on none', impl_output=mo, signature='C05/corr/create_src_evt_mask', no_failing_input=True)
     # ---- branch coverage of the modelled functions
     ctx.counters['branch:changeShgMgr:same-manager'] += ctx.counters.get('esm:op:change:held', 0)
     ctx.counters['branch:changeShgMgr:new-manager'] += ctx.counters.get('esm:op:change', 0)
@@ -2011,8 +2190,19 @@ MANIFEST = dict(
           'incoming tables (any order, duplicates, out of range), TrialDataManager.initialize_trial (single calls and call histories on '
           'one manager), histories on one method object (sources changed in place, change_shg_mgr, parameter setters) on every run; '
           'failing-input oracles: brute-force double loop with independent geometric formulas, fresh-object comparison, aliasing '
-          '(one events object re-used, returned arrays overwritten by the caller).'),
-    note=('Theorems are about the model; IEEE rounding and numpy/scipy primitives enter through the correspondence only. np.argsort '
+          '(one events object re-used, returned arrays overwritten by the caller). Round 7: the readers of the stored table '
+          '(broadcast_sources_array(s)_to_values_array(s), broadcast_selected_events_arrays_to_values_arrays, '
+          'get_values_mask_for_source_mask) are modelled as coded (run-length loop, np.take, |= loop; exceptions as Except) and proved '
+          'to give every value the entry of its own source / event exactly when the table is grouped by ascending source and in range '
+          '(c05_bcast_sources_exact with a counterexample for an ungrouped table, c05_bcast_selected_exact, c05_values_mask_exact), '
+          'which initialize_trial establishes on every path and after every history (c05_tdm_table_grouped, c05_tdm_consumers, '
+          'c05_tdm_obj_readers); compared on every run after trials on one manager, on a manager without a trial, and on tables '
+          'handed back by a user-defined selection method; the defaults of the optional arguments of the manager are read from the '
+          'source (c05_tdm_defaults_for_current_source).'),
+    note=('Round 7: IntersectionEventSelectionMethod.change_shg_mgr was not atomic (a manager rejected by a later sub-method left the '
+          'intersection half-changed, the next select_events raised IndexError); repaired by 79b2c4d on branch agent-C05-r7 (two-phase '
+          '_check_shg_mgr), reproduced on the unrepaired tree by directed method-object histories and listed in findings.d/C05.json '
+          'until the commit is merged. Theorems are about the model; IEEE rounding and numpy/scipy primitives enter through the correspondence only. np.argsort '
           'is modelled as an arbitrary permutation (sortedness of the stored events is checked by the oracle). Relation: events and '
           'original indices exactly, pair table as a set + grouped by ascending source; near-ties (0 < margin < 1e-9) are not generated. '
           'Six genuine defects were repaired in the tree (PsiFunc event indices, initialize_trial re-index, methods ignoring the incoming '
